@@ -312,6 +312,32 @@ pub fn run_decode(a: &Args, out: &mut Out) {
             decode_ev::<G2>(out, "cmp", &c);
         }
     }
+    // twist points whose y is PURELY IMAGINARY (real part 0: y and -y have the same parity, no prefix can select between them)
+    // or purely real: x = cbrt(y^2 - 5u); not in the subgroup, every decoder must return Err without panicking
+    {
+        let mut found = 0;
+        for t in 1u8..40 {
+            if found >= (if thorough { 12 } else { 4 }) { break; }
+            let ft = Fq::from_slice(&[t]).unwrap();
+            for y in [Fq2::new(Fq::zero(), ft), Fq2::new(ft, Fq::zero())] {
+                if let Some(x) = fq2_cbrt(y * y - G2::b()) {
+                    found += 1;
+                    let (xs, ys) = (x.to_slice(), y.to_slice());
+                    for pre in [2u8, 3u8] {
+                        let mut c = vec![pre];
+                        c.extend_from_slice(&xs);
+                        decode_ev::<G2>(out, "cmp", &c);
+                    }
+                    let mut raw = xs.to_vec();
+                    raw.extend_from_slice(&ys);
+                    decode_ev::<G2>(out, "raw", &raw);
+                    let mut u = vec![4u8];
+                    u.extend_from_slice(&raw);
+                    decode_ev::<G2>(out, "unc", &u);
+                }
+            }
+        }
+    }
     // random x-coordinates with both compressed prefixes (about half carry a point)
     let n = if thorough { 200 } else { 30 };
     for i in 0..n {
